@@ -92,6 +92,32 @@ def s_noninline(rng, nval):
     return _mk(p.prog, "enable_" + k, rng, nval, edges=p.edges)
 
 
+def s_condvalue(rng, nval):
+    """`enable = (x CMP c) : k` / `: y` - near-inlinable forms: the assigned VALUE decides (k <= 0 never enables)."""
+    p = P(rng)
+    a, b = p.inp(), p.inp()
+    for _ in range(rng.randint(1, 3)):
+        cmp_ = ["c", rng.choice(CMP_OPS), ["v", a], ["n", rng.randint(-3, 10)]]
+        form = rng.choice(["k", "k", "k", "sig", "neg", "not", "named", "mulk"])
+        k = rng.choice([-2, -1, 0, 1, 2, 7])
+        if form == "k":
+            e = ["s", cmp_, ["n", k]]
+        elif form == "sig":
+            e = ["s", cmp_, ["v", b]]
+        elif form == "neg":
+            e = ["neg", cmp_]
+        elif form == "not":
+            e = ["!", cmp_]
+        elif form == "mulk":
+            e = ["b", "*", cmp_, ["n", k]]
+        else:
+            nm = "g%d" % len(p.prog)
+            p.prog.append(["sig", nm, ["s", cmp_, ["n", k]]])
+            e = ["v", nm]
+        p.enable(p.place(), e)
+    return _mk(p.prog, "enable_conditional_value", rng, nval, edges=p.edges)
+
+
 def s_shared_cmp(rng, nval):
     p = P(rng)
     a = p.inp()
@@ -147,7 +173,7 @@ def s_chest(rng, nval):
     return _mk(p.prog, "chest_output_" + k, rng, nval, edges=p.edges, chests=True)
 
 
-STRATA = [(s_inline, 4), (s_noninline, 5), (s_shared_cmp, 2), (s_fanout, 2), (s_bundle_cond, 2), (s_chest, 4)]
+STRATA = [(s_inline, 4), (s_noninline, 5), (s_condvalue, 3), (s_shared_cmp, 2), (s_fanout, 2), (s_bundle_cond, 2), (s_chest, 4)]
 
 
 def gen_cases(tier, seed):
